@@ -3,7 +3,7 @@
    leaves a heap represented by the documented cycles (all other cycles and all values as before). *)
 From Coq Require Import ZArith List Bool Arith Lia Permutation.
 Import ListNotations.
-From Mds Require Import Gen.RingIdx Ring.RingModel Ring.RingSpec Ring.RingProofsBase Ring.RingProofsRep
+From Mds Require Import Gen.RingIdx Ring.RingBase Ring.RingPlain Ring.RingSpec Ring.RingProofsBase Ring.RingProofsRep
   Ring.RingProofsObs Ring.RingProofsOps Ring.RingProofsNew Ring.RingProofs.
 
 Section Pictures.
@@ -158,7 +158,7 @@ Proof.
   - pose proof (len_sim T h _ (Some r) R Hok) as [Ho HR]. unfold a_len, with_cycle in Ho. rewrite E in Ho.
     destruct (scan_spec T Z (fun n _ => (len_inc n, true)) (fun n _ => ret (len_inc n, true)) h _ r 0%Z R Hr)
       as [t' [rest' [E' Hrun]]]; [reflexivity|]. rewrite E in E'. inversion E'; subst t' rest'.
-    unfold len, len_nil. rewrite enc_nil. rewrite Hrun. rewrite len_pure. reflexivity.
+    unfold len, len_nil. rewrite enc_nil. erewrite bind_ok by exact Hrun. unfold ret. rewrite len_pure. reflexivity.
   - pose proof (each_sim T h _ (Some r) lim R Hok) as [Ho HR]. unfold a_each, with_cycle in Ho. rewrite E in Ho.
     cbn [avals] in Ho.
     destruct (each (Some r) lim h) as [h' [vs| | |]] eqn:Ee; cbn [to_out snd fst] in *; try discriminate.
